@@ -19,7 +19,7 @@ from pathlib import Path
 
 import numpy as np
 
-from common import ROOT, REPO, clist, coq_results, cstr
+from common import PY, ROOT, REPO, clist, coq_results, cstr, load_corpus
 
 TRUSTED = [
     "translate/batchable.py (ast translator for backends/__init__.py, arrayapi.py, xarray.py; its marker table is compared with the run-time `batchable` attributes on every run)",
@@ -287,12 +287,17 @@ def expected_dims(c):
     return dims
 
 
+STRUCTURAL = {"stack", "concat", "take", "min", "max"}      # never round, whatever the data
+
+
 def is_exact(c, ref):
-    """integer-valued data and an operation that is exact on it: demand equality, no tolerance"""
+    """data and operation on which floating point does not round: demand equality, no tolerance"""
     op, dt = c["op"], c["dtype"]
     if dt.startswith(("int", "uint", "bool")):
         return op in EXACT_OPS or (op == "pow")
-    if dt == "float64" and op in EXACT_OPS:
+    if op in STRUCTURAL:
+        return True
+    if op in EXACT_OPS:      # sum prod add subtract multiply on small integer-valued floats (|result| < 2^24)
         return all(float(x).is_integer() for d in c["datas"] for x in d)
     return False
 
@@ -619,6 +624,24 @@ def run(ctx, res):
         res.extra["batchable_marked_runtime"] = rm
     except Exception as e:
         res.disagree("translator tie raised " + repr(e), {})
+    # the table Coq was built against must be the one of THIS repository (gen/ is shared between concurrent runs)
+    try:
+        import subprocess, tempfile
+        with tempfile.TemporaryDirectory() as td:
+            subprocess.run([PY, str(ROOT / "translate" / "batchable.py"), str(REPO), td], capture_output=True, timeout=60)
+            fresh = (Path(td) / "Batchable.v").read_text()
+        if fresh != (ROOT / "coq" / "gen" / "Batchable.v").read_text():
+            ctx.notes.append("coq/gen/Batchable.v differs from a fresh translation of this repository: another ./check or ./coqmake with a different VERIF_REPO ran concurrently; re-run")
+    except Exception as e:
+        res.disagree("could not re-run translate/batchable.py: " + repr(e), {})
+    # corpus first: stored failing inputs
+    for p, obj in load_corpus("C15"):
+        c = obj.get("case")
+        if obj.get("kind") == "failing-input" and isinstance(c, dict) and "form" in c:
+            if c["form"] == "batch" and c["op"] not in runtime_marked():
+                continue          # the law is only claimed for functions that carry the marker now
+            res.count("corpus")
+            (oracle_batch if c["form"] == "batch" else oracle_values)(c, res)
     # (O1)+(R) values
     rng = ctx.sub_rng("values")
     cases = [gen_case(rng) for _ in range(ctx.n(1400, 30000))]
@@ -661,6 +684,8 @@ def replay(ctx, case):
     if not isinstance(c, dict) or "form" not in c:
         return {"fails": None, "note": "not an input case (proof / correspondence record): re-run ./check C15"}
     if c["form"] == "batch":
+        if c["op"] not in runtime_marked():
+            return {"fails": False, "what": f"backends.{c['op']} does not carry the batchable marker in this checkout: the law is not claimed for it"}
         oracle_batch(c, r)
     else:
         oracle_values(c, r)
